@@ -2123,7 +2123,9 @@ def archive_contracts(reg):
         c.note = "read_archive raises the file-encrypted error itself, or passes one on from something that is not a format extractor"
         a = c.exc.attrs if c.exc is not None else {}
         src = str(a.get("from_callee", ""))
-        from_extractor = "site" not in a and src.endswith(("::_extract_from_zip_optimized", "::_extract_from_7z_optimized"))
+        if "site" in a:        # EXC-ANY of a library call / an un-contracted helper: not a `raise` this contract can see (pack convention, cf. own())
+            return z3.BoolVal(True)
+        from_extractor = src.endswith(("::_extract_from_zip_optimized", "::_extract_from_7z_optimized"))
         return z3.Implies(is_enc_err(c), z3.And(z3.BoolVal(from_extractor), enc_container(c)))
 
     def ra_passed_on(c):
@@ -2155,8 +2157,8 @@ def archive_contracts(reg):
         note="archive entry point: dispatches to the ZIP / 7z / TAR extractor; `except ExtractionError: raise` lets the extractor's "
              "file-encrypted error escape as such (not wrapped into ExtractionFailedError), and nothing else raises it")
     cra.on_yield = ra_on_yield
-    EXECUTOR_KW[t] = {"inline_calls": False, "inline_local": False}       # exact execution: every callee has a contract
-    out.append(cra)
+    EXECUTOR_KW[t] = {"inline_calls": False, "inline_local": True}        # exact execution: every callee has a contract; a local
+    out.append(cra)                                                         # dispatch helper (handed the bytes) is executed in place
 
     # ---------------- sevenzip.py: needs_password / _apply_decoder
     def folders_maker():
